@@ -1,19 +1,24 @@
 #!/bin/sh
 # usage: tools/mutant_run.sh <patch-file|-e 'sed-expr' file> -- <ID> [tier]
 # Applies a mutation to a scratch copy of /repo (outside /repo and /verif), runs the check with
-# VERIF_REPO pointing at the copy, then removes the copy and its build output.
-set -e
+# VERIF_REPO pointing at the copy, then removes the copy and its build output (also on failure).
 S=/tmp/vscratch_$$
-rm -rf $S; mkdir -p $S
-rsync -a --exclude target --exclude .git /repo/ $S/
+W=${VERIF_WORK:-/verif/work}
+cleanup() {
+  TAG=$(python3 -c "import hashlib;print(hashlib.sha1('$S'.encode()).hexdigest()[:8])")
+  rm -rf "$S" "$W"/*_"$TAG" "$W"/inproc_"$TAG"
+}
+trap cleanup EXIT INT TERM
+rm -rf "$S"; mkdir -p "$S" || exit 2
+rsync -a --exclude target --exclude .git /repo/ "$S"/ || exit 2
 if [ "$1" = "-e" ]; then
-  sed -i "$2" "$S/$3"; shift 3
+  sed -i "$2" "$S/$3" || exit 2; shift 3
 else
-  (cd $S && patch -p1 -s < "$1"); shift 1
+  P=$(readlink -f "$1"); (cd "$S" && patch -p1 -s < "$P") || { echo "patch failed"; exit 2; }; shift 1
 fi
 [ "$1" = "--" ] && shift
 ID=$1; TIER=${2:-quick}
 cd /verif
-VERIF_REPO=$S bin/vcheck $ID --tier $TIER --no-evidence 2>&1 | tail -${TAILN:-6} || true
-TAG=$(python3 -c "import hashlib;print(hashlib.sha1('$S'.encode()).hexdigest()[:8])")
-W=${VERIF_WORK:-/verif/work}; rm -rf $S $W/*_$TAG $W/inproc_$TAG
+if cmp -s /repo/"${3:-/dev/null}" "$S"/"${3:-/dev/null}" 2>/dev/null; then :; fi
+VERIF_REPO=$S bin/vcheck "$ID" --tier "$TIER" --no-evidence 2>&1 | tail -"${TAILN:-6}"
+exit 0
